@@ -654,7 +654,11 @@ fn clamp_case<T: Fx>(key: u128) -> Out {
     } else {
         x
     };
-    let got = guard(|| T::fb(x).c_clamp(T::fb(lo), T::fb(hi)).tb() as u128);
+    // the inherent clamp and the one the derived Ord provides
+    let got = guard(|| {
+        let (a, b) = (T::fb(x).c_clamp(T::fb(lo), T::fb(hi)).tb() as u128, T::fb(x).o_clamp(T::fb(lo), T::fb(hi)).tb() as u128);
+        if a == b { a } else { a | b << 32 | 1 << 100 }
+    });
     Out::cmp(got, w as u128, w != x)
 }
 
@@ -757,7 +761,7 @@ pub fn c10<T: Fx>(thorough: bool) -> Vec<CellDef> {
         }
         _ => {
             let c = alphabet(32, 2, false);
-            let c = thin(&c, if thorough { 2 } else { 5 });
+            let c = thin(&c, if thorough { 2 } else { 3 });
             Space::prod3(c.clone(), c.clone(), c, "thin(A(32,2,coarse))^3")
         }
     };
